@@ -36,7 +36,7 @@ func sameListSource(a, b ssa.Value) bool {
 // suffix `s[j:]` of the same list as an argument.
 func c02PrefixAppend(c *core.Check) {
 	p := c.Prog
-	r := c.Rule("R12", "no element is lost by appending to a prefix: for every append(s[:i], …) in html/document, html/layout, html/boxes and html/tree (s[:i] a two-index slice, which shares the array of s), no append or copy executed after it reads a suffix s[j:] of the same list (the tail must be copied before the prefix is appended to)", 3)
+	r := c.Rule("R12", "no element is lost by appending to a prefix: for every append(s[:i], …) in html/document, html/layout, html/boxes and html/tree (s[:i] a two-index slice, which shares the array of s), no append or copy executed after it reads a suffix s[j:] of the same list (the tail must be copied before the prefix is appended to)", 2)
 	n := 0
 	for _, pkg := range []string{"html/document", "html/layout", "html/boxes", "html/tree"} {
 		for _, fn := range p.FuncsOfPkg(pkg) {
